@@ -1,3 +1,4 @@
+import MosnVerif.Drive.DispatchCtx
 import MosnVerif.Drive.Util
 import MosnVerif.Model.StreamTableSpec
 import MosnVerif.Model.CorrelateSpec
@@ -245,6 +246,7 @@ def run (caseToks impl : List String) : String :=
   | ["e2e", _, reqs, script] => E2E.run reqs script impl
   | ["tbl", pr, base, ops] => tbl pr base ops impl
   | ["gen", pr, base, n] => genLine pr base n impl
+  | ["ctx", proto, _stream, frames, chunks] => MosnVerif.Drive.DispatchCtx.run proto frames chunks impl
   | _ => "E E unknown-kind"
 
 end MosnVerif.Drive.C02
